@@ -13,6 +13,7 @@ import (
 	"github.com/hslam/rpc"
 	"github.com/hslam/socket"
 	vs "verif/shim/vsync"
+	vt "verif/shim/vtime"
 )
 
 // ---- payloads (BYTES codec).  Layout: [tag, flags, fill...]; the fill is derived from tag so
@@ -74,6 +75,7 @@ type World struct {
 	ran        map[byte][]string // per request tag: the methods that were invoked for it
 	streamHold bool              // the Push handler waits (after each received message) until this is cleared
 	plainSeen  []string          // what Svc.Plain was invoked with (length and first bytes), in order
+	delay      time.Duration     // virtual time every handler invocation takes
 }
 
 func newWorld() *World {
@@ -159,6 +161,9 @@ func (w *World) handle(in []byte, res *[]byte) error {
 	}
 	if flags&fGate != 0 {
 		vs.Block(fmt.Sprintf("gate %d", tag), func() bool { return w.gates[tag] })
+	}
+	if w.delay > 0 {
+		vt.Sleep(w.delay)
 	}
 	if flags&fYield != 0 {
 		vs.Yield()
@@ -302,6 +307,7 @@ func newServer(w *World, o srvOpts) *rpc.Server {
 	s.Register(&Svc{w})
 	s.Register(&Arith{w})
 	s.Register(&StreamSvc{w})
+	s.Register(&Blob{w})
 	return s
 }
 
